@@ -88,6 +88,32 @@ func runC09(r *Run) {
 		requireGuard(r, "R1", fnID(fn)+"#merge-only-by-funder", fn, funderEq(func(s *Slice) bool { return s.HasField("MsgCreateClawbackVestingAccount", "FromAddress") }), nil, isAdd,
 			"a grant is merged only where recorded funder == msg.FromAddress", "a grant can be merged into an existing vesting account by someone who is not its funder (schedules and clawback rights of the account change)")
 	}
+	// addGrant replaces the whole schedule consistently: start, end and both period lists come from the two DisjunctPeriods calls
+	r.Rule("R3", "FLOW.merge-completeness: addGrant stores StartTime, EndTime, LockupPeriods, VestingPeriods (each from the results of DisjunctPeriods over the account's and the grant's periods) and OriginalVesting (plus the grant coins) on every success path")
+	if ag, ok := P.FnOK("(" + vk + ".Keeper).addGrant"); ok {
+		need := map[string]func(v ssa.Value) bool{
+			"ClawbackVestingAccount.StartTime":      func(v ssa.Value) bool { return backSlice(v).HasCall(func(g CallInfo) bool { return g.Name == "DisjunctPeriods" }) },
+			"BaseVestingAccount.EndTime":            func(v ssa.Value) bool { return backSlice(v).HasCall(func(g CallInfo) bool { return g.Name == "DisjunctPeriods" }) },
+			"ClawbackVestingAccount.LockupPeriods":  func(v ssa.Value) bool { s := backSlice(v); return s.HasCall(func(g CallInfo) bool { return g.Name == "DisjunctPeriods" }) && s.HasParam("grantLockupPeriods") },
+			"ClawbackVestingAccount.VestingPeriods": func(v ssa.Value) bool { s := backSlice(v); return s.HasCall(func(g CallInfo) bool { return g.Name == "DisjunctPeriods" }) && s.HasParam("grantVestingPeriods") },
+			"BaseVestingAccount.OriginalVesting":    func(v ssa.Value) bool { return backSlice(v).HasParam("grantCoins") },
+		}
+		for key, okVal := range need {
+			parts := strings.SplitN(key, ".", 2)
+			isSt := func(in ssa.Instruction) bool {
+				st, ok := in.(*ssa.Store)
+				if !ok {
+					return false
+				}
+				sn, f, ok := fieldOfAddr(st.Addr)
+				return ok && sn == parts[0] && f == parts[1] && okVal(st.Val)
+			}
+			w := Precedes(ag, isSt, isSuccessExit, nil)
+			r.Check(w == nil, "R3", fnID(ag)+"#sets-"+parts[1], P.Pos(fnPos(ag)), "stored from the merged schedule on every success path", "addGrant can succeed without updating "+parts[1]+" from the merged schedules: the stored periods are relative to the merged start, so a stale "+parts[1]+" shifts or truncates every release event (the merge is no longer the union)", P.witness(w)...)
+		}
+	} else {
+		r.Bad("R3", "anchor/addGrant", "", "not found")
+	}
 	// other callers of addGrant must also compare the funder
 	nAdd := 0
 	for _, fn := range P.Funcs {
